@@ -24,6 +24,10 @@ pub enum EvK {
     HandleEnd(usize, bool),
     /// the activation was dropped before it ended (only legal when the cluster is joined)
     Dropped,
+    /// the actor VALUE's own `Drop` began / ended (journalled only for `hold_drop` specs, whose
+    /// Drop parks on a harness gate: it occupies the worker thread, not the runtime)
+    ValueDropBegin,
+    ValueDropEnd,
 }
 
 impl EvK {
@@ -34,6 +38,8 @@ impl EvK {
             EvK::HandleBegin(_) => "Handle.begin".into(),
             EvK::HandleEnd(_, ok) => format!("Handle.end({})", if *ok { "ok" } else { "err" }),
             EvK::Dropped => "Dropped".into(),
+            EvK::ValueDropBegin => "ValueDrop.begin".into(),
+            EvK::ValueDropEnd => "ValueDrop.end".into(),
         }
     }
 }
@@ -47,6 +53,9 @@ pub enum Phase {
     Handling(usize),
     Exited,
     StartFailed,
+    /// pre_start failed, the spawner has been told, and the actor value's Drop is parked at its
+    /// gate (the worker-side task has not finished yet); the name must already be free
+    DropHeld,
     /// the spawn was refused (name taken): no actor exists
     Refused,
 }
@@ -96,6 +105,11 @@ pub struct SpawnSpec {
     /// hooks whose gate is closed (the actor parks there until Open)
     pub holds: [bool; 4],
     pub supervised: bool,
+    /// the pre_stop / post_stop hook returns Err
+    pub pre_stop_fail: bool,
+    pub post_stop_fail: bool,
+    /// (only with `pre_fail`) the actor value's Drop parks at a harness gate
+    pub hold_drop: bool,
 }
 
 impl SpawnSpec {
@@ -112,6 +126,12 @@ impl SpawnSpec {
         if self.post_fail {
             s.push_str("F1");
         }
+        if self.pre_stop_fail {
+            s.push_str("F2");
+        }
+        if self.post_stop_fail {
+            s.push_str("F3");
+        }
         s.push('h');
         for i in 0..4 {
             if self.holds[i] {
@@ -121,12 +141,16 @@ impl SpawnSpec {
         if self.supervised {
             s.push('S');
         }
+        if self.hold_drop {
+            s.push('D');
+        }
         s
     }
 
     pub fn to_json(&self) -> Value {
         json!({"name": self.name, "cap": self.cap, "pre_fail": self.pre_fail, "post_fail": self.post_fail,
-               "holds": self.holds.to_vec(), "supervised": self.supervised})
+               "holds": self.holds.to_vec(), "supervised": self.supervised,
+               "pre_stop_fail": self.pre_stop_fail, "post_stop_fail": self.post_stop_fail, "hold_drop": self.hold_drop})
     }
 
     pub fn from_json(v: &Value) -> Option<Self> {
@@ -142,6 +166,9 @@ impl SpawnSpec {
             post_fail: v["post_fail"].as_bool()?,
             holds,
             supervised: v["supervised"].as_bool()?,
+            pre_stop_fail: v["pre_stop_fail"].as_bool().unwrap_or(false),
+            post_stop_fail: v["post_stop_fail"].as_bool().unwrap_or(false),
+            hold_drop: v["hold_drop"].as_bool().unwrap_or(false),
         })
     }
 }
@@ -213,11 +240,13 @@ pub struct MActor {
     pub handle: Option<Exit>,
     /// a stop was requested while messages were queued or being handled
     pub spawned_by_supervisor: bool,
+    /// its name was taken over from a failed start whose actor value was still alive (parked in Drop)
+    pub reused_name_of_held: bool,
 }
 
 impl MActor {
     pub fn parked(&self) -> bool {
-        matches!(self.phase, Phase::Hook(_) | Phase::Handling(_))
+        matches!(self.phase, Phase::Hook(_) | Phase::Handling(_) | Phase::DropHeld)
     }
 
     /// the harness holds a mailbox for it
@@ -226,7 +255,7 @@ impl MActor {
     }
 
     pub fn live(&self) -> bool {
-        !matches!(self.phase, Phase::Exited | Phase::StartFailed | Phase::Refused)
+        !matches!(self.phase, Phase::Exited | Phase::StartFailed | Phase::DropHeld | Phase::Refused)
     }
 
     /// between successful pre_start and the begin of the stop hooks
@@ -286,6 +315,11 @@ pub struct Model {
     pub last_stop: bool,
     /// spec-level fact about the last group send: a live, non-full member existed
     pub last_group_had_taker: bool,
+    /// spawns handed to the dispatcher since an actor value parked in its Drop (= since a worker
+    /// thread is blocked)
+    pub drop_hold_dispatches: usize,
+    /// the actor of the most recent spawn that was handed to the dispatcher
+    pub last_dispatched: Option<usize>,
 }
 
 pub fn code_pre(a: usize) -> u32 {
@@ -293,6 +327,12 @@ pub fn code_pre(a: usize) -> u32 {
 }
 pub fn code_post(a: usize) -> u32 {
     2000 + a as u32
+}
+pub fn code_pre_stop(a: usize) -> u32 {
+    4000 + a as u32
+}
+pub fn code_post_stop(a: usize) -> u32 {
+    5000 + a as u32
 }
 pub fn code_msg(m: usize) -> u32 {
     3000 + m as u32
@@ -311,6 +351,8 @@ impl Model {
             respawn_budget,
             last_stop: false,
             last_group_had_taker: false,
+            drop_hold_dispatches: 0,
+            last_dispatched: None,
         }
     }
 
@@ -329,6 +371,7 @@ impl Model {
             spawn: SpawnExp::Pending,
             handle: None,
             spawned_by_supervisor: by_supervisor,
+            reused_name_of_held: false,
         };
         self.member_token.push(false);
         if let Some(n) = spec.name {
@@ -338,10 +381,35 @@ impl Model {
                 return a;
             }
             self.names[n] = Some(a);
+            act.reused_name_of_held = self.actors.iter().any(|x| x.phase == Phase::DropHeld && x.spec.name == Some(n));
         }
+        if self.held_drops() > 0 {
+            self.drop_hold_dispatches += 1;
+        }
+        self.last_dispatched = Some(a);
         self.actors.push(act);
         self.enter_hook(a, Hook::PreStart);
         a
+    }
+
+    pub fn held_drops(&self) -> usize {
+        self.actors.iter().filter(|x| x.phase == Phase::DropHeld).count()
+    }
+
+    /// A parked Drop blocks its worker thread. New tasks go to the worker that has been waiting
+    /// for work longest (flume wakes its receivers first-in first-out and a worker re-registers
+    /// right after taking a task), so with two workers exactly the first spawn dispatched after
+    /// the Drop parked is certain to land on the free worker; any later one may queue behind the
+    /// blocked one. Spawns that are refused at the registry are never dispatched.
+    pub fn can_spawn(&self, spec: &SpawnSpec, workers: usize) -> bool {
+        if spec.name.is_some_and(|n| self.names[n].is_some()) {
+            return true;
+        }
+        match self.held_drops() {
+            0 => true,
+            1 => workers >= 2 && self.drop_hold_dispatches == 0,
+            _ => false,
+        }
     }
 
     fn enter_hook(&mut self, a: usize, h: Hook) {
@@ -365,7 +433,8 @@ impl Model {
         let ok = match h {
             Hook::PreStart => !self.actors[a].spec.pre_fail,
             Hook::PostStart => !self.actors[a].spec.post_fail,
-            _ => true,
+            Hook::PreStop => !self.actors[a].spec.pre_stop_fail,
+            Hook::PostStop => !self.actors[a].spec.post_stop_fail,
         };
         self.actors[a].journal.push(EvK::HookEnd(h, ok));
         match h {
@@ -375,9 +444,18 @@ impl Model {
                     self.enter_hook(a, Hook::PostStart);
                 } else {
                     self.actors[a].spawn = SpawnExp::StartErr(code_pre(a));
-                    self.actors[a].phase = Phase::StartFailed;
                     self.actors[a].closed = true;
+                    // the name is free as soon as the start failure is reported
                     self.release_name(a);
+                    if self.actors[a].spec.hold_drop {
+                        self.actors[a].journal.push(EvK::ValueDropBegin);
+                        self.actors[a].phase = Phase::DropHeld;
+                        // (if other tasks were dispatched after this actor's, the free worker need not be
+                        // the one that is served next: no further spawn then)
+                        self.drop_hold_dispatches = if self.last_dispatched == Some(a) { 0 } else { 1 };
+                    } else {
+                        self.actors[a].phase = Phase::StartFailed;
+                    }
                 }
             }
             Hook::PostStart => {
@@ -391,8 +469,18 @@ impl Model {
                     self.begin_finish(a);
                 }
             }
-            Hook::PreStop => self.enter_hook(a, Hook::PostStop),
+            // both stop hooks always run, whatever they return; a failing stop hook turns a
+            // graceful exit into Failed(its error) and leaves an earlier failure alone
+            Hook::PreStop => {
+                if !ok && self.actors[a].exit == Some(Exit::Stopped) {
+                    self.actors[a].exit = Some(Exit::Failed(code_pre_stop(a)));
+                }
+                self.enter_hook(a, Hook::PostStop)
+            }
             Hook::PostStop => {
+                if !ok && self.actors[a].exit == Some(Exit::Stopped) {
+                    self.actors[a].exit = Some(Exit::Failed(code_post_stop(a)));
+                }
                 let exit = self.actors[a].exit.expect("exit reason");
                 self.actors[a].phase = Phase::Exited;
                 self.actors[a].handle = Some(exit);
@@ -412,6 +500,9 @@ impl Model {
                         let mut spec = self.actors[a].spec.clone();
                         spec.pre_fail = false;
                         spec.post_fail = false;
+                        spec.pre_stop_fail = false;
+                        spec.post_stop_fail = false;
+                        spec.hold_drop = false;
                         spec.holds = [false; 4];
                         self.spawn(spec, true);
                     }
@@ -442,6 +533,13 @@ impl Model {
         let ph = self.actors[a].phase;
         match ph {
             Phase::Hook(h) => self.finish_hook(a, h),
+            Phase::DropHeld => {
+                self.actors[a].journal.push(EvK::ValueDropEnd);
+                self.actors[a].phase = Phase::StartFailed;
+                if self.held_drops() == 0 {
+                    self.drop_hold_dispatches = 0;
+                }
+            }
             Phase::Handling(m) => {
                 let ok = !self.msgs[m].fail;
                 self.actors[a].journal.push(EvK::HandleEnd(m, ok));
